@@ -27,6 +27,35 @@ const INTO_TARGETS: [&str; 10] =
 /// names that are generic parameters in some inputs and concrete user types in others
 const VOCAB: [&str; 8] = ["T", "K", "U", "V", "Item", "Key", "Node", "Error"];
 
+/// Names the crate's own templates use (set once per process by the corpus harvester).
+static TEMPLATE_VOCAB: std::sync::OnceLock<(Vec<String>, Vec<String>)> = std::sync::OnceLock::new();
+
+pub fn set_template_vocab(upper: &[String], lower: &[String]) {
+    let _ = TEMPLATE_VOCAB.set((upper.to_vec(), lower.to_vec()));
+}
+
+fn template_upper(rng: &mut Rng) -> Option<&'static str> {
+    let v = &TEMPLATE_VOCAB.get()?.0;
+    if v.is_empty() {
+        return None;
+    }
+    // short names are the ones generated code declares as its own generic parameters: favour them
+    let short: Vec<&String> = v.iter().filter(|n| n.len() <= 2).collect();
+    if !short.is_empty() && rng.chance(1, 2) {
+        return Some(short[rng.usize(short.len())].as_str());
+    }
+    Some(v[rng.usize(v.len())].as_str())
+}
+
+fn template_lower(rng: &mut Rng) -> Option<&'static str> {
+    let v: Vec<&String> = TEMPLATE_VOCAB.get()?.1.iter().filter(|n| !matches!(n.as_str(), "true" | "false")).collect();
+    if v.is_empty() {
+        None
+    } else {
+        Some(v[rng.usize(v.len())].as_str())
+    }
+}
+
 #[derive(Clone, Copy, PartialEq, Eq, Debug)]
 pub enum Kind {
     StructNamed,
@@ -94,6 +123,15 @@ fn gen_generics(rng: &mut Rng, wide: bool) -> Generics {
         g.types = pool.into_iter().take(n_types).collect();
     } else {
         g.types = VOCAB.iter().take(n_types).copied().collect();
+    }
+    // sometimes a parameter is named like something the generated code itself declares (`H`, `V`, ...)
+    if !g.types.is_empty() && rng.chance(1, 5) {
+        if let Some(n) = template_upper(rng) {
+            if !g.types.contains(&n) {
+                let k = rng.usize(g.types.len());
+                g.types[k] = n;
+            }
+        }
     }
     if rng.chance(1, 6) {
         g.consts.push("N");
@@ -286,7 +324,15 @@ fn gen_fields(rng: &mut Rng, g: &Generics, named: bool, n: usize, traits: &[&str
         // repeated field types are common in real code and matter for de-duplicating helpers
         let ty = if i > 0 && rng.chance(1, 3) { v[rng.usize(i)].ty.clone() } else { gen_type(rng, g, 0) };
         let attrs = gen_field_attrs(rng, traits, i, rich, named, default_ok);
-        v.push(Field { name: if named { Some(format!("f{i}")) } else { None }, ty, attrs });
+        let mut fname = format!("f{i}");
+        if named && rng.chance(1, 8) {
+            if let Some(n) = template_lower(rng) {
+                if !v.iter().any(|f: &Field| f.name.as_deref() == Some(n)) {
+                    fname = n.to_string();
+                }
+            }
+        }
+        v.push(Field { name: if named { Some(fname) } else { None }, ty, attrs });
     }
     v
 }
